@@ -131,6 +131,8 @@ def replay(doc):
                 kw[n] = args[n]
             elif extra and n in extra:
                 kw[n] = extra[n]
+            elif n == 'self':
+                kw[n] = None
         return fn(**kw)
 
     pre = spec('pre')
